@@ -366,7 +366,9 @@ def check(run: Run):
     # two instantiations of the constants: (1) identifiers related as affixes of one another, two non-empty payloads;
     # (2) identifiers that begin with the names of the store's own tables / sub-directories (results_, logs_) and an
     # EMPTY payload (a legal record whose file has zero bytes)
-    cfgs = ["MC_DataStore_quick.cfg", "MC_DataStore_quick_names.cfg"] if tier == "quick" else ["MC_DataStore_thorough.cfg", "MC_DataStore_thorough_names.cfg"]
+    # (3) identifiers that contain dots (gene / gene.1: what apply_to derives from gene.fasta, gene.1.fasta)
+    cfgs = (["MC_DataStore_quick.cfg", "MC_DataStore_quick_names.cfg", "MC_DataStore_quick_dots.cfg"] if tier == "quick"
+            else ["MC_DataStore_thorough.cfg", "MC_DataStore_thorough_names.cfg", "MC_DataStore_thorough_dots.cfg"])
     logids = ["l1"]
     with Scratch("C13") as scratch:
         stats = {}
@@ -398,7 +400,7 @@ def check(run: Run):
     run.cov["evaluations"] = run.cov["traces_validated_against_impl"]
     run.cov["distinct_nontrivial"] = run.cov["traces_validated_against_impl"]
     run.assumptions += [
-        "identifiers do not contain the store suffix as a substring and contain no '.' other than the format suffix; they may begin with the store's table names",
+        "identifiers do not contain the store suffix as a substring; they may contain dots and may begin with the store's table names",
         "logs are checked for presence and last content only (sqlite keeps one log row per session by design)",
     ]
 
